@@ -190,7 +190,7 @@ def as_index(x, ndim):
 
 
 def nontrivial_point(p):
-    return any(x == 0 for x in p) or p in ((3.0, 4.0), (4.0, 3.0)) or max(abs(x) for x in p) > 2
+    return any(x == 0 for x in p) or any(x != round(x * 2) / 2 for x in p) or p in ((3.0, 4.0), (4.0, 3.0)) or max(abs(x) for x in p) > 2
 
 
 # ---------------------------------------------------------------------------------------------
@@ -271,6 +271,22 @@ def eval_point(case):
     r = run("facade", lambda: facade_call(name, [p]))
     if r.ok:
         results["facade"] = (None, cell_of(r.value))
+    # the same point handed over as a float32 array (all alphabet values are exactly representable in float32):
+    # the container's element type must not change the bin
+    if all(float(np.float32(x)) == x for x in p):
+        p32 = np.array(p, dtype=np.float32)
+        h7 = make_empty(name)
+        r = run("fill_f32", lambda: h7.fill(p32))
+        if r.ok:
+            results["fill_f32"] = (as_index(r.value, nd), cell_of(h7))
+        h8 = make_empty(name)
+        r = run("fill_n_f32", lambda: h8.fill_n(np.array([p], dtype=np.float32)))
+        if r.ok:
+            results["fill_n_f32"] = (None, cell_of(h8))
+        h9 = make_empty(name)
+        r = run("find_bin_f32", lambda: h9.find_bin(p32))
+        if r.ok:
+            results["find_bin_f32"] = (as_index(r.value, nd), "unchanged")
     # transformed input
     h4 = make_empty(name)
     r = run("fill_T", lambda: h4.fill(tc, transformed=True))
@@ -351,6 +367,17 @@ def eval_pair(case):
 
 def all_points(name):
     return [tuple(q) for q in (itertools.product(V2, repeat=2) if CLASSES[name][1] == 2 else itertools.product(V3, repeat=3))]
+
+
+def near_edge_points(name):
+    """float32-representable points whose radius is within a float32 ulp of a radial bin edge."""
+    pts = []
+    for R in (1.0, 2.5, 0.5, 3.0):
+        for k in range(64):
+            t = k * math.pi / 32 + 0.01
+            x, y = float(np.float32(R * math.cos(t))), float(np.float32(R * math.sin(t)))
+            pts.append((x, y) if CLASSES[name][1] == 2 else (x, y, 0.0))
+    return pts
 
 
 def eval_all(case):
@@ -514,7 +541,7 @@ def run_unit(unit, ctx):
     p = Partial()
     name = unit["cls"]
     if unit["kind"] == "points":
-        for pt in all_points(name):
+        for pt in all_points(name) + near_edge_points(name):
             case = {"cls": name, "point": list(pt), "bins": unit["bins"]}
             vs = eval_point(case)
             p.ev(nontrivial_point(pt))
